@@ -15,6 +15,9 @@ statements need to know one form only:
   C7  a nested `def f(a): return e` is `f = lambda a: e`
   C8  negations in test position are pushed inwards (De Morgan)
   C9  `if a: if b: B` (no else, nothing else in the outer body) is `if a and b: B`
+  C11 `return a if c else b` is `if c: return a` / `return b`
+  C12 `if not c: A else: B` is `if c: B else: A` (positive spelling of the test); in expressions the same holds
+      for conditional expressions (sym.mk_ifexp)
   C10 a loop over a literal sequence of names (or the fields of a module-level namedtuple) is unrolled;
       `getattr(o, 'x')` is `o.x`, `setattr(o, 'x', v)` is `o.x = v`, constant strings are concatenated;
       a local alias of a dotted callable of an imported module (`deepcopy = copy.deepcopy`) is written out
@@ -227,6 +230,31 @@ def _stmt(st):
         ast.copy_location(new, st)
         ast.copy_location(new.test, st.test)
         return _stmt(new)
+    if isinstance(st, ast.Return) and isinstance(st.value, ast.IfExp):
+        # C11: `return a if c else b` is `if c: return a` / `return b`
+        v = st.value
+        r1 = ast.copy_location(ast.Return(value=v.body), st)
+        r2 = ast.copy_location(ast.Return(value=v.orelse), st)
+        new = ast.copy_location(ast.If(test=v.test, body=[r1], orelse=[r2]), st)
+        ast.fix_missing_locations(new)
+        return _stmt(new)
+    if isinstance(st, ast.If) and st.orelse and not (len(st.orelse) == 1 and isinstance(st.orelse[0], ast.If)):
+        # C12: `if not c: A else: B` is `if c: B else: A` (the test is kept in its positive spelling)
+        t = st.test
+        flipped = None
+        if isinstance(t, ast.UnaryOp) and isinstance(t.op, ast.Not):
+            flipped = t.operand
+        elif isinstance(t, ast.Compare) and len(t.ops) == 1 and isinstance(t.ops[0], (ast.NotEq, ast.IsNot, ast.NotIn)):
+            op = {ast.NotEq: ast.Eq, ast.IsNot: ast.Is, ast.NotIn: ast.In}[type(t.ops[0])]()
+            flipped = ast.copy_location(ast.Compare(left=t.left, ops=[op], comparators=t.comparators), t)
+        elif isinstance(t, ast.BoolOp) and isinstance(t.op, ast.Or) and all(
+                (isinstance(v, ast.UnaryOp) and isinstance(v.op, ast.Not)) or
+                (isinstance(v, ast.Compare) and len(v.ops) == 1 and isinstance(v.ops[0], (ast.NotEq, ast.IsNot, ast.NotIn))) for v in t.values):
+            flipped = _nnf(ast.copy_location(ast.UnaryOp(op=ast.Not(), operand=t), t))
+        if flipped is not None:
+            new = ast.copy_location(ast.If(test=flipped, body=st.orelse, orelse=st.body), st)
+            ast.fix_missing_locations(new)
+            return _stmt(new)
     if isinstance(st, ast.If):
         # C5: flatten else after a leaving body
         if st.orelse and _leaves(st.body) and not (len(st.orelse) == 1 and isinstance(st.orelse[0], ast.If)):
@@ -277,6 +305,18 @@ def _merge_returns(body):
     body = _strip_doc(body)
     if len(body) == 1 and isinstance(body[0], ast.Return) and body[0].value is not None:
         return body[0].value
+    if len(body) == 2 and isinstance(body[0], ast.Assign) and len(body[0].targets) == 1 and isinstance(body[0].targets[0], ast.Tuple) \
+            and isinstance(body[0].value, ast.Name) and all(isinstance(e, ast.Name) for e in body[0].targets[0].elts) \
+            and isinstance(body[1], ast.Return) and body[1].value is not None:
+        # `a, b, c = p` followed by `return f(a, b, c)`  is  `return f(p[0], p[1], p[2])`
+        src = body[0].value
+        env = {e.id: ast.Subscript(value=ast.Name(id=src.id, ctx=ast.Load()), slice=ast.Constant(value=i), ctx=ast.Load())
+               for i, e in enumerate(body[0].targets[0].elts)}
+        new = _Subst(env).visit(copy.deepcopy(body[1].value))
+        for n in ast.walk(new):
+            if not hasattr(n, 'lineno'):
+                ast.copy_location(n, body[1])
+        return new
     if len(body) >= 1 and isinstance(body[0], ast.If):
         st = body[0]
         a = _merge_returns(st.body)
